@@ -437,9 +437,10 @@ static void build_menu()
                       thrown++;
                   }
               };
-              one([&] { return ccode(*i[0], p); });
-              one([&] { return cudacode(*i[0], p); });
-              one([&] { return metalcode(*i[0], p); });
+              // no settings object: each printer's own default precision
+              one([&] { return prec < 0 ? ccode(*i[0]) : ccode(*i[0], p); });
+              one([&] { return prec < 0 ? cudacode(*i[0]) : cudacode(*i[0], p); });
+              one([&] { return prec < 0 ? metalcode(*i[0]) : metalcode(*i[0], p); });
               if (thrown == 3)
                   throw CoreRefusal();
           });
@@ -451,13 +452,13 @@ static void build_menu()
           char *p = basic_dumps(i[0], &n);
           if (!p)
               return (int)SYMENGINE_RUNTIME_ERROR;
-          x.push_back(std::string(p, n));
+          x.push_back(n > 0 ? "nonempty" : "empty"); // the byte string itself contains object ids: not comparable between two calls
           int rc = basic_loads(o[0], p, n);
           basic_str_free(p);
           return rc;
       },
       [](std::vector<B> &o, const std::vector<B> &i, XS &x) {
-          x.push_back(i[0]->dumps());
+          x.push_back(i[0]->dumps().size() > 0 ? "nonempty" : "empty");
           o[0] = i[0];
       },
       true);
@@ -905,20 +906,31 @@ static void build_menu()
               throw CoreRefusal(); // documented: "if the set of solutions is finite"
           x.push_back(set_keys(down_cast<const FiniteSet &>(*s).get_container()));
       });
-    F("vecbasic_linsolve[a,b;x,y]", {ANY, ANY}, 0,
-      [](basic_struct **, basic_struct **i, XS &x) {
-          Hd sx, sy;
-          symbol_set(sx.p, "x");
-          symbol_set(sy.p, "y");
-          CVec sys{i[0], i[1]}, sym{sx.p, sy.p}, sol;
-          int rc = vecbasic_linsolve(sol.p, sys.p, sym.p);
-          x.push_back(vec_keys(sol.p));
-          return rc;
-      },
-      [](std::vector<B> &, const std::vector<B> &i, XS &x) {
-          vec_sym sy{symbol("x"), symbol("y")};
-          x.push_back(vec_keys(linsolve(vec_basic{i[0], i[1]}, sy)));
-      });
+    {
+        // fixed systems in x, y: regular, singular, inconsistent, non-linear, symbolic coefficients
+        static const char *SYS[][2] = {{"x + y - 1", "x - y"}, {"2*x + y", "y - 3"}, {"x + y", "2*x + 2*y"}, {"x + y - 1", "x + y - 2"}, {"0", "0"},
+                                       {"x", "x"},             {"x*y", "x"},       {"sin(x)", "y"},        {"a*x + y", "x - b*y - 1"}, {"x/2 - y/3", "y - 1/7"},
+                                       {"y", "x"}};
+        for (auto &sy : SYS) {
+            std::string e1 = sy[0], e2 = sy[1];
+            F("vecbasic_linsolve[" + e1 + " ; " + e2 + "]", {}, 0,
+              [e1, e2](basic_struct **, basic_struct **, XS &x) {
+                  Hd sx, sy2, h1, h2;
+                  symbol_set(sx.p, "x");
+                  symbol_set(sy2.p, "y");
+                  basic_parse(h1.p, e1.c_str());
+                  basic_parse(h2.p, e2.c_str());
+                  CVec sys{h1.p, h2.p}, sym{sx.p, sy2.p}, sol;
+                  int rc = vecbasic_linsolve(sol.p, sys.p, sym.p);
+                  x.push_back(vec_keys(sol.p));
+                  return rc;
+              },
+              [e1, e2](std::vector<B> &, const std::vector<B> &, XS &x) {
+                  vec_sym sy3{symbol("x"), symbol("y")};
+                  x.push_back(vec_keys(linsolve(vec_basic{parse(e1), parse(e2)}, sy3)));
+              });
+        }
+    }
     F("basic_cse[a,b]", {ANY, ANY}, 0,
       [](basic_struct **, basic_struct **i, XS &x) {
           CVec ex{i[0], i[1]}, rs, re, red;
@@ -1041,10 +1053,9 @@ static void build_pool()
         {"UniversalSet", universalset()},
         {"Reals", reals()},
         {"Integers", integers()},
-        {"Rationals", rationals()},
         {"Complexes", complexes()},
         {"[0,1]", interval(integer(0), integer(1), false, false)},
-        {"(0,oo)", interval(integer(0), Inf, true, true)},
+        {"(0,1]", interval(integer(0), integer(1), true, false)},
         {"{1,x}", finiteset({integer(1), x})},
     };
     std::set<std::string> small = {"0", "1", "-1", "2", "1/2", "I", "0.5", "x", "y", "oo", "nan", "x+y", "2*x", "x**2", "sin(x)", "f(x)", "Reals", "True"};
@@ -1198,7 +1209,7 @@ static void exec_case(const Fn &f, const std::vector<int> &a, int mode, Ctx &c, 
     }
     if (C.threw) {
         c.outcome("escape:" + sigclass(f));
-        c.violation("escape:" + sigclass(f) + argtypes(a), desc + ": a C++ exception escaped from the C API: " + C.what.substr(0, 300));
+        c.violation("escape:" + sigclass(f), desc + ": a C++ exception escaped from the C API: " + C.what.substr(0, 300));
         return;
     }
     // ---- the corresponding core call, on copies of the operands
@@ -1298,7 +1309,7 @@ static void run_layer(Layer &L, const std::string &name, int depth_counter, std:
     CaseSet cs;
     cs.name = name;
     cs.n = L.total;
-    cs.hang_s = 10;
+    cs.hang_s = 30;
     cs.counter_names = CN;
     cs.desc = [&](long long i) { return case_desc(L, i); };
     cs.crash_sig = [&](long long i, const std::string &oc) {
@@ -1306,7 +1317,7 @@ static void run_layer(Layer &L, const std::string &name, int depth_counter, std:
         int mode;
         const Plan &p = L.decode(i, a, mode);
         std::string cls = oc.find("hang") != std::string::npos ? "hang" : "crash";
-        return cls + ":" + sigclass(FN[p.fn]) + argtypes(a);
+        return cls + ":" + sigclass(FN[p.fn]);
     };
     cs.body = [&](long long i, Ctx &c) {
         std::vector<int> a;
@@ -1359,6 +1370,7 @@ static void run_vec_sequences(int depth)
     };
     cs.crash_sig = [&](long long, const std::string &oc) { return "crash:vecbasic-sequence:" + oc; };
     cs.body = [&](long long i, Ctx &c) {
+        limit_memory();
         CVec v;
         std::vector<B> m;
         Hd h, g;
@@ -1452,6 +1464,7 @@ static void run_set_sequences(int depth)
     };
     cs.crash_sig = [&](long long, const std::string &oc) { return "crash:setbasic-sequence:" + oc; };
     cs.body = [&](long long i, Ctx &c) {
+        limit_memory();
         CSet s;
         std::map<std::string, B> m;
         Hd h, g;
@@ -1543,6 +1556,7 @@ static void run_map_sequences(int depth)
     };
     cs.crash_sig = [&](long long, const std::string &oc) { return "crash:mapbasicbasic-sequence:" + oc; };
     cs.body = [&](long long i, Ctx &c) {
+        limit_memory();
         CMapBasicBasic *mp = mapbasicbasic_new();
         std::map<std::string, std::pair<B, B>> m;
         Hd h, g, r;
@@ -2097,12 +2111,13 @@ static void run_matrix_cases()
     CaseSet cs;
     cs.name = "matrix";
     cs.n = MC.size();
-    cs.hang_s = 10;
+    cs.hang_s = 30;
     cs.counter_names = {"matrix_calls_success_equal", "matrix_calls_error_code_and_core_throws", "matrix_calls_error_code_but_core_succeeds(allowed)"};
     cs.desc = [&](long long i) { return MC[i].desc; };
     cs.crash_sig = [&](long long i, const std::string &oc) { return std::string(oc.find("hang") != std::string::npos ? "hang:" : "crash:") + MC[i].sig; };
     cs.body = [&](long long i, Ctx &c) {
         const MCase &m = MC[i];
+        limit_memory(); // e.g. dense_matrix_eye with an out-of-range offset asks for a 2^32-element vector
         c.eval();
         std::string got, want, what;
         int rc = 0, krc = 0;
@@ -2271,7 +2286,7 @@ static void run_expression_pairs()
     CaseSet cs;
     cs.name = "expression";
     cs.n = n * n * nb + n * nu + 1;
-    cs.hang_s = 10;
+    cs.hang_s = 30;
     cs.counter_names = {"expression_ops_equal", "expression_ops_both_throw"};
     cs.desc = [&](long long i) {
         if (i < n * n * nb)
@@ -2339,6 +2354,11 @@ int main(int argc, char **argv)
     init(argc, argv, "C42");
     bool thorough = opts().thorough();
     build_menu();
+    // lowergamma/uppergamma recurse once per unit of an integer first argument (stack overflow for 2^70+1, a defect of
+    // the functions themselves, not of the wrapper): their arguments come from the reduced pool
+    for (auto &f : FN)
+        if (f.name == "basic_lowergamma" || f.name == "basic_uppergamma")
+            f.small = true;
     build_pool();
     Run &R = run();
 
@@ -2361,6 +2381,34 @@ int main(int argc, char **argv)
         }
         p.modes = 1 + (FN[f].nout > 0 ? FN[f].nout * (int)FN[f].in.size() : 0);
         L1.add(p);
+    }
+    if (getenv("C42_PROFILE")) {
+        // developer aid: wall time per plan, each in its own child
+        for (auto &p : L1.plans) {
+            double t = now();
+            pid_t pid = fork();
+            if (pid == 0) {
+                Shared sh;
+                memset((void *)&sh, 0, sizeof sh);
+                Ctx c;
+                c.sh = &sh;
+                c.out = fopen("/dev/null", "w");
+                alarm(120);
+                for (long long i = p.base; i < p.base + p.nargs; i++) {
+                    std::vector<int> a;
+                    int mode;
+                    const Plan &q = L1.decode(i, a, mode);
+                    exec_case(FN[q.fn], a, mode, c, "", false);
+                }
+                _exit(0);
+            }
+            int st = 0;
+            waitpid(pid, &st, 0);
+            double dt = now() - t;
+            if (dt > 0.05 || !WIFEXITED(st))
+                printf("PROFILE %-45s cases=%lld wall=%.2fs per_case=%.3fms status=%d\n", FN[p.fn].name.c_str(), p.nargs, dt, 1000 * dt / p.nargs, st);
+        }
+        return 0;
     }
     std::set<long long> bad1;
     run_layer(L1, "calls-depth1", K_CALLS_D1, &bad1);
@@ -2386,8 +2434,8 @@ int main(int argc, char **argv)
         run_expression_pairs();
     bound += "; Expression operators on all ordered pairs of the pool";
 
-    // ---- depth 2: the restricted menu on every distinct result of a depth-1 call
-    if (!past_deadline()) {
+    // ---- depth 2 (thorough): the restricted menu on every distinct result of a depth-1 call
+    if (thorough && !past_deadline()) {
         // states: distinct successful results of depth-1 calls that were executed safely (quarantine)
         for (long long i = 0; i < L1.total; i++) {
             if (bad1.count(i))
